@@ -4203,7 +4203,17 @@ impl<'a> Parser<'a> {
                 self.advance();
                 let mut types = vec![];
                 while !self.check(&TokenKind::RBracket) && !self.is_at_end() {
+                    // Rest element: [...T[]], [...rest: T[]]
+                    self.match_token(&TokenKind::DotDotDot);
+                    // Named member: [name: T, name?: T]
+                    if self.tuple_member_is_named() {
+                        self.parse_identifier_name()?;
+                        self.match_token(&TokenKind::Question);
+                        self.require_token(&TokenKind::Colon)?;
+                    }
                     types.push(self.parse_type_annotation()?);
+                    // Optional element: [T?]
+                    self.match_token(&TokenKind::Question);
                     if !self.match_token(&TokenKind::Comma) {
                         break;
                     }
@@ -4360,6 +4370,21 @@ impl<'a> Parser<'a> {
 
             _ => Err(self.unexpected_token("type")),
         }
+    }
+
+    /// At a tuple member: is it `name: T` or `name?: T` rather than a type?
+    fn tuple_member_is_named(&mut self) -> bool {
+        if !self.check_identifier() && !self.is_keyword() {
+            return false;
+        }
+        let checkpoint = self.lexer.checkpoint();
+        let named = match self.lexer.next_token().kind {
+            TokenKind::Colon => true,
+            TokenKind::Question => self.lexer.next_token().kind == TokenKind::Colon,
+            _ => false,
+        };
+        self.lexer.restore(checkpoint);
+        named
     }
 
     /// Try to parse a function type expression: (a: T, b: T) => R
